@@ -89,7 +89,7 @@ func metaJSON(name string, drop string, contract string) string {
 
 func main() {
 	r := lib.Start("C17", "exploration")
-	r.Rule = "scripted plugin behaviours through the real process runner: 5 protocol commands x exit {0,1,2,killed} x stdout {valid, each mandatory metadata field removed, wrong name, wrong contract version, non-JSON, empty, shape-incompatible, 2 GiB} x stderr {empty, structured with each of 6 error codes, non-JSON, 2 GiB} x timing {immediate, sleeping past a 300 ms deadline, ignoring SIGTERM, child / grandchild holding stdout+stderr for 120 s} x context {background, deadline, explicit cancel}; quick = a fixed covering subset, thorough = the full product; distinct by behaviour tuple; non-trivial = every case except the plain valid reply"
+	r.Rule = "scripted plugin behaviours through the real process runner: 5 protocol commands x exit {0,1,2,125,126,127,255,killed} x stdout {valid, each mandatory metadata field removed, wrong name, wrong contract version, non-JSON, empty, shape-incompatible, 2 GiB} x stderr {empty, structured with each of 6 error codes, non-JSON, 2 GiB} x timing {immediate, sleeping past a 300 ms deadline, ignoring SIGTERM, child / grandchild holding stdout+stderr for 120 s} x context {background, deadline, explicit cancel}; quick = a fixed covering subset, thorough = the full product; distinct by behaviour tuple; non-trivial = every case except the plain valid reply"
 	r.Assumptions = []string{"the behaviour script is the ground truth; `null` replies to non-metadata commands are not judged (whether null has 'the expected shape' is not stated)",
 		"bounded return is decided bimodally: the scripted descendants would hold the pipes for 120 s, the threshold is 30 s after the context ended; a 180 s watchdog firing without a decision is inconclusive",
 		"bounded buffering is decided from the host child's own VmHWM: growth < 1 GiB while the plugin emits 2 GiB (calibrated: about 130 MiB per stream with the 64 MiB cap, >= 2 GiB without)"}
@@ -212,7 +212,7 @@ func main() {
 		for _, cmd := range commands {
 			for _, so := range stdouts {
 				for _, se := range stderrs {
-					for _, exit := range []int{0, 1, 2, -1} {
+					for _, exit := range []int{0, 1, 2, -1, 125, 126, 127, 255} {
 						if so.fill > 0 && se.fill > 0 {
 							continue
 						}
@@ -248,7 +248,8 @@ func main() {
 					continue
 				}
 				add(cmd, stdouts[0], se, []int{1, 2, -1}[(ci+si)%3], timings[0], "background")
-				add(cmd, stdouts[0], se, 0, timings[0], "background") // exit 0 with something on stderr is a success
+				add(cmd, stdouts[0], se, []int{126, 255, 127, 125}[(ci+si)%4], timings[0], "background") // whatever the non-zero status
+				add(cmd, stdouts[0], se, 0, timings[0], "background")                                    // exit 0 with something on stderr is a success
 			}
 			tm := timings[1+ci%(len(timings)-1)]
 			add(cmd, stdouts[0], stderrs[0], 0, tm, []string{"deadline", "cancel"}[ci%2])
@@ -399,6 +400,7 @@ func main() {
 	lib.Parallel(len(small), 16, func(i int) { run(small[i]) }, r.PanicViolation("harness"))
 	lib.Parallel(len(big), 3, func(i int) { run(big[i]) }, r.PanicViolation("harness"))
 	concurrentCalls(r, scratch, workerCopy, wb)
+	symlinkedExecutable(r, scratch, workerCopy, wb)
 	r.RequireAtLeast("calls-succeeded", 5)
 	r.RequireAtLeast("error-typing-checked", 20)
 	r.RequireAtLeast("big-output-cases", 2)
@@ -511,4 +513,45 @@ func concurrentCalls(r *lib.Run, scratch, workerCopy string, wb []byte) {
 		}(pl)
 	}
 	wg.Wait()
+}
+
+// symlinkedExecutable: the plugin "foo" is looked up at <dir>/foo/notation-foo. If that path is a symbolic link to
+// another plugin's executable, the process answers with the OTHER plugin's name: the name a plugin reports must equal
+// the name of the file it was started as, so the call fails - whatever the link points at is not "foo".
+func symlinkedExecutable(r *lib.Run, scratch, workerCopy string, wb []byte) {
+	ctx := context.Background()
+	root := filepath.Join(scratch, "linked")
+	bar := filepath.Join(root, "bar", "notation-bar")
+	os.MkdirAll(filepath.Dir(bar), 0o755)
+	if err := os.Link(workerCopy, bar); err != nil {
+		os.WriteFile(bar, wb, 0o755)
+	}
+	meta := behavior{Stdout: metaJSON("bar", "", "1.0")}
+	bj, _ := json.Marshal(map[string]behavior{"*": meta})
+	os.WriteFile(bar+".behavior.json", bj, 0o644)
+	for i, target := range []string{"../bar/notation-bar", bar} {
+		foo := filepath.Join(root, fmt.Sprintf("foo%d", i), fmt.Sprintf("notation-foo%d", i))
+		os.MkdirAll(filepath.Dir(foo), 0o755)
+		if err := os.Symlink(target, foo); err != nil {
+			continue
+		}
+		os.WriteFile(foo+".behavior.json", bj, 0o644) // (the scripted executable finds its script next to the path it was started as)
+		r.Eval(fmt.Sprintf("symlinked-executable/%d", i))
+		p, err := plugin.NewCLIPlugin(ctx, fmt.Sprintf("foo%d", i), foo)
+		if err != nil {
+			r.Event("symlinked-executable-refused-at-construction")
+			continue
+		}
+		md, err := p.GetMetadata(ctx, &pf.GetMetadataRequest{})
+		r.Event("symlinked-executable-cases")
+		if err == nil {
+			r.Violation(map[string]string{"kind": "wrongful-success", "why": "name-of-link-target"}, fmt.Sprintf("plugin foo%d (a symbolic link to notation-bar) answered with name %q and the call succeeded", i, md.Name), nil)
+		}
+	}
+	// control: the real one works
+	if p, err := plugin.NewCLIPlugin(ctx, "bar", bar); err == nil {
+		if _, err := p.GetMetadata(ctx, &pf.GetMetadataRequest{}); err != nil {
+			r.Violation(map[string]string{"kind": "control-failed"}, "control: the plugin bar itself does not answer: "+err.Error(), nil)
+		}
+	}
 }
